@@ -29,7 +29,11 @@ S == INSTANCE SeriesMachine WITH
        DynCenter <- LAMBDA ts, v : v, DynTol <- 0, FarTol <- 0
 
 Init == S!EInit /\ S!SInit /\ hist = <<>>
-New  == \E st \in {-7, 0, 3}, span \in 0..12, step \in 1..5, incl \in BOOLEAN :
+(* spans 0..12 with steps 1..5 (every relation between span and step), and spans up to the largest duration   *)
+(* (80 ticks: from the least epoch to the scale's zero and from the zero to the greatest) with steps for which   *)
+(* the product k * step leaves the range of durations after a few items                                         *)
+NewDom == [st : {-7, 0, 3}, span : 0..12, step : 1..5] \cup [st : {-80, 0}, span : {79, 80}, step : {27, 40, 41, 79, 80}]
+New  == \E x \in NewDom, incl \in BOOLEAN : LET st == x.st  span == x.span  step == x.step IN
           /\ sout = <<"init">>
           /\ S!SNew(S!Ep(0, st), S!Ep(0, st + span), step, incl, S!Ep(0, st))
           /\ hist' = <<>> /\ UNCHANGED <<e, eout>>
@@ -52,4 +56,18 @@ C15_Yields ==
 C15_Increasing == \A k \in 1..(Len(hist) - 1) : hist[k] < hist[k + 1]
 C15_StaysDone == [][Done => (sout' = <<"none">> /\ hist' = hist)]_vars
 C15_Terminates == (sout = <<"new">>) ~> Done
+
+(* Refinement: Iterator::next as written (the cursor `cur`, the saturating product cur * step for the item, the  *)
+(* exact integer product for the test - the repair of finding F36) takes the step the specification takes, in     *)
+(* every reachable state; the test as found (the saturating product compared with the span) is a control that     *)
+(* TLC refutes: it yields an item where the specification is exhausted.                                           *)
+ImplSome(s)    == IF s.incl THEN ~(s.k * s.step > s.span) ELSE ~(s.k * s.step >= s.span)
+ImplSomeOld(s) == LET sat == S!DMulI(s.step, s.k) IN IF s.incl THEN ~(sat > s.span) ELSE ~(sat >= s.span)
+ImplItem(s)    == S!Ep(s.start.ts, S!DAdd(s.start.v, S!DMulI(s.step, s.k)))
+C15_ImplRefines ==
+  [][Nxt => IF ImplSome(ser) THEN sout' = <<"some", ImplItem(ser)>> /\ ser'.k = ser.k + 1
+                             ELSE sout' = <<"none">> /\ ser' = ser]_vars
+ASSUME \E st \in {-80, 0}, step \in {27, 40, 80} :
+          LET s == [start |-> S!Ep(0, st), span |-> 80, step |-> step, k |-> 4, incl |-> TRUE] IN
+            ImplSomeOld(s) /\ S!Exhausted(s)
 =============================================================================
